@@ -2,7 +2,7 @@ import ScyllaVerif.Model.Util
 import ScyllaVerif.Model.Ring
 import ScyllaVerif.Model.Replicas
 import ScyllaVerif.Drive.Topology
-/-! Line-protocol driver for C04.  Case: `q <topology> <keyspace strategies> <strategy> <dc|-> <token>`
+/-! Line-protocol driver for C04.  Case: `q<kind> <topology> <keyspace strategies> <strategy> <dc|-> <token>`
 (syntax in `Drive/Topology.lean`).  Output: `len=… iter=… choose=… ord=… ep=…` — the size, the iteration order,
 `choose` for every index `0..len`, the ring-ordered view, and `get_token_endpoints("k0", _, token)`.
 Everything is deterministic (the random index of `choose` is swept by a scripted RNG), so `impl` is ignored. -/
@@ -14,7 +14,8 @@ def optIds (l : List (Option Node)) : String :=
 
 def run (case _impl : String) : String :=
   match words case with
-  | ["q", topo, pre, strat, dc, tok] =>
+  | [q, topo, pre, strat, dc, tok] =>
+    if !q.startsWith "q" then "bad-case" else
     match parseTopology topo, parseStrategies pre, parseStrategy strat, parseOptNat dc, tok.toInt? with
     | some topo, some pre, some strat, some dc, some tok =>
       if !i64ok tok then "bad-case" else
